@@ -11,22 +11,23 @@ Fixpoint pop_runs (kept : list chunk) (run : run_state) (rest : list chunk) (seq
   match rest with
   | [] => []
   | c :: rest' =>
-      let in_run (r : list chunk) (expected : Z) (ordered : bool) :=
+      let in_run (kept0 : list chunk) (r : list chunk) (expected : Z) (ordered : bool) :=
         if last c then
           let seq' := if ordered && Z.eqb (sseq c) seq then uint16_add seq 1 else seq in
-          rev (c :: r) :: pop_runs kept None rest' seq'
-        else pop_runs kept (Some (c :: r, tsn_plus_one expected, ordered)) rest' seq in
+          rev (c :: r) :: pop_runs kept0 None rest' seq'
+        else pop_runs kept0 (Some (c :: r, tsn_plus_one expected, ordered)) rest' seq in
+      let start (kept0 : list chunk) :=
+        let ordered := negb (unordered c) in
+        if negb (first c) then
+          if ordered then [] else pop_runs (c :: kept0) None rest' seq
+        else if ordered && uint16_gt (sseq c) seq then []
+        else in_run kept0 [] (tsn c) ordered in
       match run with
-      | None =>
-          let ordered := negb (unordered c) in
-          if negb (first c) then
-            if ordered then [] else pop_runs (c :: kept) None rest' seq
-          else if ordered && uint16_gt (sseq c) seq then []
-          else in_run [] (tsn c) ordered
+      | None => start kept
       | Some (r, expected, ordered) =>
           if negb (Z.eqb (tsn c) expected) then
-            if ordered then [] else pop_runs (c :: r ++ kept) None rest' seq
-          else in_run r expected ordered
+            if ordered then [] else start (r ++ kept)
+          else in_run kept r expected ordered
       end
   end.
 
@@ -54,33 +55,43 @@ Proof.
   - cbn [pop_loop] in H. cbn [pop_runs].
     assert (Hret : forall run0 x, cnt (kept ++ run_chunks run0 ++ c :: rest) x = cnt (retained kept run0 (c :: rest) ++ []) x).
     { intros run0 x. unfold retained. destruct run0 as [[[r e] o]|]; cnt_solve. }
-    assert (Hin : forall r expected ordered,
+    assert (Hin : forall kept0 r expected ordered,
       (if last c
-       then let '(l0, s0, ms0) := pop_loop kept None rest (if ordered && (sseq c =? seq) then uint16_add seq 1 else seq) in
+       then let '(l0, s0, ms0) := pop_loop kept0 None rest (if ordered && (sseq c =? seq) then uint16_add seq 1 else seq) in
             (l0, s0, (sid c, ppid c, join_data (rev (c :: r))) :: ms0)
-       else pop_loop kept (Some (c :: r, tsn_plus_one expected, ordered)) rest seq) = (l, s, ms) ->
+       else pop_loop kept0 (Some (c :: r, tsn_plus_one expected, ordered)) rest seq) = (l, s, ms) ->
       let runs := if last c
-                  then rev (c :: r) :: pop_runs kept None rest (if ordered && (sseq c =? seq) then uint16_add seq 1 else seq)
-                  else pop_runs kept (Some (c :: r, tsn_plus_one expected, ordered)) rest seq in
-      ms = map msgf runs /\ forall x, cnt (kept ++ r ++ c :: rest) x = cnt (l ++ concat runs) x).
-    { clear H. intros r expected ordered Heq. destruct (last c) eqn:El.
-      - destruct (pop_loop kept None rest _) as [[l0 s0] ms0] eqn:E. injection Heq as <- _ <-.
+                  then rev (c :: r) :: pop_runs kept0 None rest (if ordered && (sseq c =? seq) then uint16_add seq 1 else seq)
+                  else pop_runs kept0 (Some (c :: r, tsn_plus_one expected, ordered)) rest seq in
+      ms = map msgf runs /\ forall x, cnt (kept0 ++ r ++ c :: rest) x = cnt (l ++ concat runs) x).
+    { clear H. intros kept0 r expected ordered Heq. destruct (last c) eqn:El.
+      - destruct (pop_loop kept0 None rest _) as [[l0 s0] ms0] eqn:E. injection Heq as <- _ <-.
         apply IH in E as [E1 E2]. cbn zeta. cbn [map concat]. rewrite msgf_run. split; [now rewrite E1|].
         intros x. specialize (E2 x). revert E2. cnt_solve.
       - apply IH in Heq as [E1 E2]. cbn zeta. split; [exact E1|]. intros x. specialize (E2 x). revert E2. cnt_solve. }
+    assert (HNone : forall kept0, pop_loop kept0 None (c :: rest) seq = (l, s, ms) ->
+      ms = map msgf (pop_runs kept0 None (c :: rest) seq) /\
+      forall x, cnt (kept0 ++ c :: rest) x = cnt (l ++ concat (pop_runs kept0 None (c :: rest) seq)) x).
+    { clear H. intros kept0 H. cbn [pop_loop] in H. cbn [pop_runs].
+      assert (Hret0 : forall x, cnt (kept0 ++ c :: rest) x = cnt (retained kept0 None (c :: rest) ++ []) x).
+      { intros x. unfold retained. cnt_solve. }
+      destruct (negb (first c)).
+      * destruct (negb (unordered c)).
+        -- injection H as <- _ <-. cbn [map concat]. split; [reflexivity|exact Hret0].
+        -- apply IH in H as [E1 E2]. split; [exact E1|]. intros x. specialize (E2 x). revert E2. cnt_solve.
+      * destruct (negb (unordered c) && uint16_gt (sseq c) seq).
+        -- injection H as <- _ <-. cbn [map concat]. split; [reflexivity|exact Hret0].
+        -- now apply (Hin kept0 [] (tsn c) (negb (unordered c))). }
     destruct run as [[[r expected] ordered]|].
     + cbn [run_chunks] in *. destruct (negb (tsn c =? expected)).
       * destruct ordered.
         -- injection H as <- _ <-. cbn [map concat]. split; [reflexivity|apply (Hret (Some (r, expected, true)))].
-        -- apply IH in H as [E1 E2]. split; [exact E1|]. intros x. specialize (E2 x). revert E2. cnt_solve.
-      * now apply (Hin r expected ordered).
-    + cbn [run_chunks app] in *. destruct (negb (first c)).
-      * destruct (negb (unordered c)).
-        -- injection H as <- _ <-. cbn [map concat]. split; [reflexivity|apply (Hret None)].
-        -- apply IH in H as [E1 E2]. split; [exact E1|]. intros x. specialize (E2 x). revert E2. cnt_solve.
-      * destruct (negb (unordered c) && uint16_gt (sseq c) seq).
-        -- injection H as <- _ <-. cbn [map concat]. split; [reflexivity|apply (Hret None)].
-        -- now apply (Hin [] (tsn c) (negb (unordered c))).
+        -- change (pop_loop (r ++ kept) None (c :: rest) seq = (l, s, ms)) in H.
+           change (ms = map msgf (pop_runs (r ++ kept) None (c :: rest) seq) /\
+                   forall x, cnt (kept ++ r ++ c :: rest) x = cnt (l ++ concat (pop_runs (r ++ kept) None (c :: rest) seq)) x).
+           apply HNone in H as [E1 E2]. split; [exact E1|]. intros x. specialize (E2 x). revert E2. cnt_solve.
+      * now apply (Hin kept r expected ordered).
+    + cbn [run_chunks app] in *. apply (HNone kept). exact H.
 Qed.
 
 (* every delivered run is a complete message run: B fragment first, E fragment last, consecutive TSNs *)
@@ -88,13 +99,13 @@ Lemma pop_runs_complete rest : forall kept run seq, run_ok run ->
   Forall (fun f => complete_run (rev f)) (pop_runs kept run rest seq).
 Proof.
   induction rest as [|c rest IH]; intros kept run seq Hok; cbn [pop_runs]; [constructor|].
-  assert (Hin : forall r expected ordered,
+  assert (Hin : forall kept0 r expected ordered,
     (r = [] \/ partial_run r expected) -> (r = [] -> first c = true) -> tsn c = expected ->
     Forall (fun f => complete_run (rev f))
       (if last c
-       then rev (c :: r) :: pop_runs kept None rest (if ordered && (sseq c =? seq) then uint16_add seq 1 else seq)
-       else pop_runs kept (Some (c :: r, tsn_plus_one expected, ordered)) rest seq)).
-  { intros r expected ordered Hr Hfirst Ht. destruct (last c) eqn:El.
+       then rev (c :: r) :: pop_runs kept0 None rest (if ordered && (sseq c =? seq) then uint16_add seq 1 else seq)
+       else pop_runs kept0 (Some (c :: r, tsn_plus_one expected, ordered)) rest seq)).
+  { intros kept0 r expected ordered Hr Hfirst Ht. destruct (last c) eqn:El.
     - constructor; [|apply IH; exact I]. rewrite rev_involutive. cbn [complete_run]. destruct Hr as [->|Hp].
       + repeat split; auto; try (cbn; now apply Hfirst).
       + destruct r as [|b r']; [destruct Hp|]. destruct Hp as (He & Hc & Hf & Hl).
@@ -109,14 +120,16 @@ Proof.
         * split.
           -- rewrite oldest_cons by congruence. erewrite oldest_default; [exact Hf|congruence].
           -- constructor; [exact El|exact Hl]. }
-  destruct run as [[[r expected] ordered]|].
-  - destruct (negb (tsn c =? expected)) eqn:Et.
-    + destruct ordered; [constructor|apply IH; exact I].
-    + apply negb_false_iff, Z.eqb_eq in Et. apply (Hin r expected ordered); auto. intros ->. destruct Hok.
-  - destruct (negb (first c)) eqn:Ef.
+  assert (HNone : forall kept0, Forall (fun f => complete_run (rev f)) (pop_runs kept0 None (c :: rest) seq)).
+  { intros kept0. cbn [pop_runs]. destruct (negb (first c)) eqn:Ef.
     + destruct (negb (unordered c)); [constructor|apply IH; exact I].
     + apply negb_false_iff in Ef. destruct (negb (unordered c) && uint16_gt (sseq c) seq); [constructor|].
-      apply (Hin [] (tsn c) (negb (unordered c))); auto.
+      apply (Hin kept0 [] (tsn c) (negb (unordered c))); auto. }
+  destruct run as [[[r expected] ordered]|].
+  - destruct (negb (tsn c =? expected)) eqn:Et.
+    + destruct ordered; [constructor|apply (HNone (r ++ kept))].
+    + apply negb_false_iff, Z.eqb_eq in Et. apply (Hin kept r expected ordered); auto. intros ->. destruct Hok.
+  - apply (HNone kept).
 Qed.
 
 (* ---------------------------------------------------------------- what stays in the queue stays in order *)
@@ -147,29 +160,31 @@ Proof.
   - cbn [pop_loop] in H.
     assert (Hret : forall run0, subseq (retained kept run0 (c :: rest)) (rev kept ++ rev (run_chunks run0) ++ c :: rest)).
     { intros run0. unfold retained. destruct run0 as [[[r e] o]|]; cbn [run_chunks rev]; apply subseq_refl. }
-    assert (Hin : forall r expected ordered,
+    assert (Hin : forall kept0 r expected ordered,
       (if last c
-       then let '(l0, s0, ms0) := pop_loop kept None rest (if ordered && (sseq c =? seq) then uint16_add seq 1 else seq) in
+       then let '(l0, s0, ms0) := pop_loop kept0 None rest (if ordered && (sseq c =? seq) then uint16_add seq 1 else seq) in
             (l0, s0, (sid c, ppid c, join_data (rev (c :: r))) :: ms0)
-       else pop_loop kept (Some (c :: r, tsn_plus_one expected, ordered)) rest seq) = (l, s, ms) ->
-      subseq l (rev kept ++ rev r ++ c :: rest)).
-    { clear H. intros r expected ordered Heq. destruct (last c) eqn:El.
-      - destruct (pop_loop kept None rest _) as [[l0 s0] ms0] eqn:E. injection Heq as <- _ _.
+       else pop_loop kept0 (Some (c :: r, tsn_plus_one expected, ordered)) rest seq) = (l, s, ms) ->
+      subseq l (rev kept0 ++ rev r ++ c :: rest)).
+    { clear H. intros kept0 r expected ordered Heq. destruct (last c) eqn:El.
+      - destruct (pop_loop kept0 None rest _) as [[l0 s0] ms0] eqn:E. injection Heq as <- _ _.
         apply IH in E. cbn [run_chunks rev app] in E.
-        change (rev kept ++ rev r ++ c :: rest) with (rev kept ++ rev r ++ [c] ++ rest). rewrite (app_assoc (rev r)).
+        change (rev kept0 ++ rev r ++ c :: rest) with (rev kept0 ++ rev r ++ [c] ++ rest). rewrite (app_assoc (rev r)).
         now apply subseq_mid.
       - apply IH in Heq. cbn [run_chunks rev] in Heq. rewrite <- !app_assoc in Heq. exact Heq. }
+    assert (HNone : forall kept0, pop_loop kept0 None (c :: rest) seq = (l, s, ms) -> subseq l (rev kept0 ++ c :: rest)).
+    { clear H. intros kept0 H. cbn [pop_loop] in H. destruct (negb (first c)).
+      * destruct (negb (unordered c)); [injection H as <- _ _; unfold retained; apply subseq_refl|].
+        apply IH in H. cbn [run_chunks rev app] in H. rewrite <- app_assoc in H. exact H.
+      * destruct (negb (unordered c) && uint16_gt (sseq c) seq); [injection H as <- _ _; unfold retained; apply subseq_refl|].
+        now apply (Hin kept0 [] (tsn c) (negb (unordered c))). }
     destruct run as [[[r expected] ordered]|].
     + cbn [run_chunks] in *. destruct (negb (tsn c =? expected)).
       * destruct ordered; [injection H as <- _ _; apply (Hret (Some (r, expected, true)))|].
-        apply IH in H. cbn [run_chunks rev app] in H. rewrite rev_app_distr in H. cbn [rev] in H.
-        rewrite <- !app_assoc in H. exact H.
-      * now apply (Hin r expected ordered).
-    + cbn [run_chunks rev app] in *. destruct (negb (first c)).
-      * destruct (negb (unordered c)); [injection H as <- _ _; apply (Hret None)|].
-        apply IH in H. cbn [run_chunks rev app] in H. rewrite <- app_assoc in H. exact H.
-      * destruct (negb (unordered c) && uint16_gt (sseq c) seq); [injection H as <- _ _; apply (Hret None)|].
-        now apply (Hin [] (tsn c) (negb (unordered c))).
+        change (pop_loop (r ++ kept) None (c :: rest) seq = (l, s, ms)) in H. apply HNone in H.
+        rewrite rev_app_distr in H. rewrite <- !app_assoc in H. exact H.
+      * now apply (Hin kept r expected ordered).
+    + cbn [run_chunks rev app] in *. apply (HNone kept). exact H.
 Qed.
 
 (* ---------------------------------------------------------------- a whole arrival list on one stream *)
